@@ -2,7 +2,7 @@
    (latest stored answer per key, not flushed), lookups return exactly the unexpired ideal
    answer, counters count every lookup once.  Cleaning only ever drops expired entries, which
    no later lookup could return because the clock is monotone. *)
-From DV Require Import Base.Prelude Model.CacheM Proofs.CacheDict Proofs.CacheSpec Proofs.CacheThm.
+From DV Require Import Base.Prelude Model.CacheM Model.CacheSpecM Proofs.CacheDict Proofs.CacheSpec Proofs.CacheThm.
 
 Lemma dget_filter : forall (p : Z * ans -> bool) d k, NoDup (dkeys d) ->
   dget (filter p d) k =
@@ -32,11 +32,6 @@ Record CJ (c : cache) (t : Z) (m : imap) : Prop := mkCJ {
   CJ_in : forall k v, dget (c_data c) k = Some v -> m k = Some v;
   CJ_out : forall k v, m k = Some v -> dget (c_data c) k = Some v \/ a_exp v <= t }.
 
-Definition nohas : Z -> bool := fun _ => false.
-Definition cache_gupd (cl : call) (c : cache) (r : ret) (c' : cache) (g : lghost) : lghost :=
-  (ideal_upd cl nohas nohas (fst g), (cl, r) :: snd g).
-Definition cache_grun := grun cache_step cache_gupd.
-
 Definition CInv (w : cache * Z) (g : lghost) : Prop :=
   CJ (fst w) (snd w) (fst g) /\ (c_hits (fst w), c_miss (fst w)) = stats_of (snd g).
 
@@ -62,9 +57,6 @@ Proof.
     destruct HJ as [N I O]. constructor; auto.
     intros key v H'. destruct (O key v H') as [H1|H1]; [left; auto|right; lia].
 Qed.
-
-Definition cache_call (cl : call) : Prop :=
-  match cl with SetMax _ | HitsFor _ => False | _ => True end.
 
 Lemma stats_pair : forall (h m : Z) l, (h, m) = stats_of l -> h = fst (stats_of l) /\ m = snd (stats_of l).
 Proof. intros h m l H. rewrite <- H. auto. Qed.
@@ -153,9 +145,6 @@ Proof.
     split; [|cbn; reflexivity]. destruct HJ as [N I O]. constructor; auto.
 Qed.
 
-Definition cache_item (it : item) : Prop :=
-  match it with Call c _ => cache_call c | Adv _ => True end.
-
 Lemma cinv_item : forall it c t g,
   CInv (c, t) g -> mono_item it -> cache_item it ->
   exists x, wstep cache_step it (c, t) = Ok x /\ CInv (snd x) (gnext cache_gupd it (c, t) x g) /\
@@ -183,12 +172,6 @@ Proof.
     exists g', w'. unfold cache_grun in *. cbn [grun]. rewrite E. cbn [bind snd]. split; [exact E'|].
     split; [exact HI''|lia].
 Qed.
-
-(* Cache(interval) created while the clock shows t0 (ds0: the increment seen by the read in
-   __init__), then the history *)
-Definition cache_reach (interval t0 : Z) (ds0 : list Z) (its : list item) (g : lghost) (w : cache * Z) : Prop :=
-  cache_grun its (fst (cache_init interval (mkClk t0 ds0)), now (snd (cache_init interval (mkClk t0 ds0))))
-             lghost0 = Ok (g, w).
 
 Lemma cinv_init : forall interval t0 ds0,
   CInv (fst (cache_init interval (mkClk t0 ds0)), now (snd (cache_init interval (mkClk t0 ds0)))) lghost0.
